@@ -498,6 +498,9 @@ func (r *Recomposer) recomp(v any, rv reflect.Value) {
 }
 
 func (r *Recomposer) setValue(v any, rv reflect.Value, sf *reflect.StructField) {
+	if v == nil { // leave the zero value, same as for struct fields
+		return
+	}
 	switch rv.Kind() {
 	case reflect.Bool:
 		if s, ok := v.(string); ok && sf != nil && strings.Contains(sf.Tag.Get("json"), ",string") {
